@@ -25,6 +25,7 @@ CLAUSES = ['Standalone', 'KindInMode', 'ParsesInMode', 'ParsesInMode.ctx', 'Leav
            'PutFailAtomic', 'CoerceDisabledRaises']
 FULL = ('as_', 'as_copy', 'ctor', 'ctor_nocopy', 'ast')
 FULL_Q = ('as_', 'as_copy', 'ctor', 'ast')
+VAR_Q = ('as_', 'ast')
 LIGHT = ('as_', 'as_copy', 'ast')
 CHILD = ('as_', 'ctor')
 
@@ -85,6 +86,17 @@ def operands(ctx, kinds, modes):
             except Exception:  # noqa: BLE001
                 continue
             variants.append((('src', pm, v), shape, lay))
+    rnd = []
+    rng = random.Random(ctx.seed * 104729 + 5)
+    for pm, src, shape in H.random_operands(rng, 60 if ctx.quick else 600):
+        if (pm, src) in {(b[0][1], b[0][2]) for b in base} | {(r[0][1], r[0][2]) for r in rnd}:
+            continue
+        try:
+            if FST(src, pm).a.__class__.__name__ not in kinds:
+                continue
+        except Exception:  # noqa: BLE001
+            continue
+        rnd.append((('src', pm, src), shape, 'random'))
     for hsrc, path, shape in H.HOSTED:
         hosted.append((('host', hsrc, path), shape, 'hosted'))
     seen = {(s[1], s[2]) for s, _, _ in base + variants}
@@ -99,13 +111,13 @@ def operands(ctx, kinds, modes):
         except Exception:  # noqa: BLE001
             continue
         repo.append((('src', pm, src), 'repo', 'repo'))
-    return base, variants, hosted, repo
+    return base, variants, hosted, repo, rnd
 
 
 def build_cases(ctx, table):
     rng = random.Random(ctx.seed * 7919 + 19)
     kinds = sorted(table['kinds'])
-    base, variants, hosted, repo = operands(ctx, set(kinds), {m['mode'] for m in table['modes']})
+    base, variants, hosted, repo, rnd = operands(ctx, set(kinds), {m['mode'] for m in table['modes']})
     named = sorted(m['mode'] for m in table['modes'] if m['cat'] == m['mode'])   # the literals of parsex.Mode
     classm = [k for k in kinds if k not in named]
     cases = []
@@ -119,14 +131,15 @@ def build_cases(ctx, table):
         cm = classm if not ctx.quick else rng.sample(classm, 3) + ['List', 'Set', 'Dict', 'Name', 'MatchSequence']
         for m in cm:
             add(spec, m, shape, lay, LIGHT if ctx.quick else FULL, True)
-    if ctx.quick:
-        variants = rng.sample(variants, min(len(variants), 70))
     for spec, shape, lay in variants:
         for m in named:
-            add(spec, m, shape, lay, LIGHT if ctx.quick else FULL, not ctx.quick)
+            add(spec, m, shape, lay, VAR_Q if ctx.quick else FULL, not ctx.quick)
         if not ctx.quick:
             for m in classm:
                 add(spec, m, shape, lay, LIGHT, False)
+    for spec, shape, lay in rnd:
+        for m in (named if ctx.quick else named + classm):
+            add(spec, m, shape, lay, LIGHT if ctx.quick else FULL, not ctx.quick)
     for spec, shape, lay in hosted:
         for m in (named if ctx.quick else named + classm):
             add(spec, m, shape, lay, CHILD, True)
@@ -135,7 +148,7 @@ def build_cases(ctx, table):
         for m in (named if ctx.quick else named + classm):
             add(spec, m, shape, lay, LIGHT, not ctx.quick)
     return cases, {'operands_catalogue': len(base), 'operands_layout_variants': len(variants),
-                   'operands_hosted': len(hosted), 'operands_repo_inputs': len(rp), 'modes_named': len(named),
+                   'operands_hosted': len(hosted), 'operands_random': len(rnd), 'operands_repo_inputs': len(rp), 'modes_named': len(named),
                    'modes_class': len(classm)}
 
 
@@ -265,3 +278,67 @@ def replay(ctx, path):
             for i, e in enumerate(s['events'], 1):
                 print(' ', i, json.dumps(e, default=str))
     return ctx.finish()
+
+
+def selftest(ctx):
+    """Binding demonstration: corrupt one recorded field of an accepted trace; TLC must reject naming the right clause."""
+    import copy
+    load_table(ctx)
+    spec = ['src', 'alias', 'a.b']
+    batch, scripts = _shard((0, [[1, spec, 'expr', 'alias-dotted', 'base', FULL_Q, True]]))
+    base = ctx.validate(batch, module='CoerceTrace', cfg='CoerceTrace')
+    ok = base[1]['bad'] == []
+    print('accepted trace:', 'no failed clause' if ok else base[1]['bad'])
+    steps = batch['traces'][0]['steps']
+    i_as = next(i for i, e in enumerate(steps) if e['call'] == 'as_' and not e['copy'] and e['outcome'] == 'ok')
+    i_cp = next(i for i, e in enumerate(steps) if e['call'] == 'as_' and e['copy'] and e['outcome'] == 'ok')
+    i_ast = next(i for i, e in enumerate(steps) if e['call'] == 'ast' and e['outcome'] == 'ok')
+    i_pn = next(i for i, e in enumerate(steps) if e['call'] == 'putn' and e['outcome'] == 'raise')
+    i_pe = next(i for i, e in enumerate(steps) if e['call'] == 'pute' and e['outcome'] == 'ok')
+
+    def name_sid(b):   # sid of some Name node different from the result: the operand-independent `Name` of the embedding
+        return next(i for i, e in enumerate(b['stab'], 1) if e['k'] == 'Name')
+
+    def c_kind(b):
+        b['traces'][0]['steps'][i_as]['res']['kind'] = 'alias'
+
+    def c_pos(b):
+        r = b['traces'][0]['steps'][i_as]['res']
+        e = copy.deepcopy(b['ptab'][r['p'] - 1])
+        e['p'][1] += 1                                 # shift one column of the result root
+        b['ptab'].append(e)
+        r['p'] = len(b['ptab'])
+
+    def c_leaf(b):
+        b['traces'][0]['steps'][i_as]['res']['s'] = name_sid(b)    # result structure lost the attribute part
+
+    def c_same(b):
+        b['traces'][0]['steps'][i_cp]['res']['same'] = True        # copy route handed back the operand
+
+    def c_post(b):
+        b['traces'][0]['steps'][i_cp]['post']['text'] = 0          # operand text changed by a copying coercion
+
+    def c_ast(b):
+        b['traces'][0]['steps'][i_ast]['res']['s'] = name_sid(b)   # pure-AST route gives another structure
+
+    def c_putn(b):
+        b['traces'][0]['steps'][i_pn]['outcome'] = 'ok'            # coerce=False accepted an alias as expression
+
+    def c_atomic(b):
+        b['traces'][0]['steps'][i_pn]['post']['text'] = 0          # failed put changed the target
+
+    def c_equiv(b):
+        b['traces'][0]['steps'][i_pe]['post']['s'] = name_sid(b)   # put of converted node gives another structure
+
+    expect = [(c_kind, 'KindInMode'), (c_pos, 'ParsesInMode'), (c_leaf, 'Leaves'), (c_same, 'CopyLeavesOperand'),
+              (c_post, 'CopyLeavesOperand'), (c_ast, 'FormattedVsPure'), (c_putn, 'CoerceDisabledRaises'),
+              (c_atomic, 'PutFailAtomic'), (c_equiv, 'PutCoerceEquiv')]
+    for fn, clause in expect:
+        b = copy.deepcopy(batch)
+        fn(b)
+        v = ctx.validate(b, module='CoerceTrace', cfg='CoerceTrace')
+        got = sorted({c for _, c, _ in v[1]['bad']})
+        hit = clause in got
+        ok = ok and hit
+        print(f'corruption {fn.__name__[2:]:8s} -> rejected clauses {got}  expected {clause}: {"OK" if hit else "MISSED"}')
+    return 0 if ok else 2
